@@ -167,11 +167,87 @@ def _chunk(seed, lo, hi, extra):
     return st
 
 
+NSU = {"x": ["urn:one", "urn:two"], "y": ["urn:why"], None: ["urn:dflt", "urn:other"]}
+
+
+def _ns_chunk(seed, lo, hi, extra):
+    """Oracle-only stream (the model has no namespaces): documents with namespaced inline elements and roots that declare
+    further, unused namespaces.  One maker processes (a) the same document under two different sets of unused root
+    declarations - every element is identical, so both must come out as the same placeholder strings - and (b) the same
+    document with one prefix bound to another URI - elements that differ only in the namespace must get different placeholders;
+    every document must survive do_tree / undo_tree."""
+    from xmldiff import formatting
+
+    tier, _ = extra
+    st = core.Stats()
+    for idx in range(lo, hi):
+        r = core.rng_for(seed, "U7ns", idx)
+        text, fmt = tagsets(r)
+        if not text:
+            text = ("p",)
+        base = mixed_tree(r, 8)
+        # choose a prefix per inline tag once, so that the copies differ only in what the prefixes are bound to
+        # text tags are selected by an XPath of plain names, so text-tag elements stay outside any namespace
+        pre_of = {tag: ("-" if tag in text else r.choice(["x", "y", "-"])) for tag in TAGS}
+
+        def build(bind, extra_decl):
+            t = base.copy()
+            for n in t.iter():
+                if n.kind == "e" and n is not t and pre_of.get(n.tag, "-") != "-":
+                    n.tag = "{%s}%s" % (bind[pre_of[n.tag]], n.tag)
+            el = xt.to_lxml(t, nsmap={k: v for k, v in {**{p: bind[p] for p in bind}, **extra_decl}.items()})
+            return el
+
+        bind1 = {"x": "urn:one", "y": "urn:why"}
+        bind2 = dict(bind1)
+        which = "x"
+        bind2[which] = NSU[which][1]
+        ttext = tuple(text)
+        tfmt = tuple(fmt) + tuple("{%s}%s" % (u, t) for t in fmt for u in ("urn:one", "urn:two", "urn:why"))
+        try:
+            a = build(bind1, {})
+            b = build(bind1, {"u1": "urn:unused:1", "u2": "urn:unused:2"})
+            c = build(bind2, {})
+        except Exception:  # noqa
+            continue
+        desc = {"documents": [etree.tostring(e, encoding="unicode") for e in (a, b, c)], "text_tags": ttext[:4], "formatting_tags": tfmt[:4]}
+        st.evaluations += 1
+        st.units["U7ns"] = st.units.get("U7ns", 0) + 1
+        maker = formatting.PlaceholderMaker(text_tags=ttext, formatting_tags=tfmt)
+        orig = [copy.deepcopy(e) for e in (a, b, c)]
+        try:
+            for e in (a, b, c):
+                maker.do_tree(e)
+            texts = [[(n.text, n.tail) for n in e.iter()] for e in (a, b, c)]
+            und = []
+            for e in (a, b, c):
+                cc = copy.deepcopy(e)
+                maker.undo_tree(cc)
+                und.append(cc)
+        except Exception as e:  # noqa
+            st.failures.append({"sig": f"C11/raises/{real.exc_sig(e)}", **desc})
+            continue
+        if texts[0] != texts[1]:
+            st.failures.append({"sig": "C11/identical-element-different-placeholder/unused-namespace-declaration", **desc})
+        for o, u in zip(orig, und):
+            if etree.tostring(o, method="c14n") != etree.tostring(u, method="c14n"):
+                # None vs "" is not visible in c14n; tails / texts are
+                st.failures.append({"sig": "C11/undo-do-differs-from-original/namespaced", **desc})
+                break
+        used = any(n.kind == "e" and n is not base and pre_of.get(n.tag) == which for n in base.iter())
+        if used:
+            st.nontriv(tuple(desc["documents"]))
+            st.sample(desc, 1)
+    return st
+
+
 def run(tier, seed, intensify=False):
     k = 1 if tier == "quick" else 20
     if intensify:
         k *= 3
-    return core.merge_all(core.pmap_chunks(_chunk, seed, 2500 * k, (tier, "u7")))
+    parts = core.pmap_chunks(_chunk, seed, 2500 * k, (tier, "u7"))
+    parts += core.pmap_chunks(_ns_chunk, seed, 800 * k, (tier, "ns"))
+    return core.merge_all(parts)
 
 
 def search(tier, seed):
